@@ -108,6 +108,9 @@ func externalIsTop(f *ssa.Function) bool {
 	if externalPureFuncs[name] {
 		return false
 	}
+	if k := strings.Index(name, "["); k > 0 && externalPureFuncs[name[:k]] {
+		return false // an instance of a generic library function (slices.Contains[[]bool bool])
+	}
 	p := ""
 	if f.Pkg != nil {
 		p = f.Pkg.Pkg.Path()
